@@ -776,7 +776,17 @@ fn build(picks: &[Pick], c: &mut Ctx, depth: usize) -> Vec<XEl> {
             32 => {
                 if !c.templates.is_empty() {
                     let t = &c.templates[idx(p.r[0], c.templates.len())];
-                    out.push(XEl::new("reuse").a("href", format!("#{t}")).a("sz", num(p.n[3])).a("label", "again").a("class", "thing"));
+                    let mut r = XEl::new("reuse").a("href", format!("#{t}")).a("sz", num(p.n[3])).a("label", "again").a("class", "thing");
+                    // attributes of the instance that the target does not have itself (appended to it)
+                    if p.f % 2 == 0 {
+                        r.set("style", "fill: red; opacity: 0.5");
+                        r.set("transform", format!("rotate({})", num(p.n[0])));
+                    }
+                    if p.f % 3 == 0 {
+                        r.set("x", num(p.n[1]));
+                        r.set("y", num(p.n[2]));
+                    }
+                    out.push(r);
                 }
             }
             33 => {
